@@ -162,6 +162,23 @@ theorem applyLoosely_never_fails_when_fee_le_price {p rp rf : Int} (hp : 0 ≤ p
   obtain ⟨a, r, h, _⟩ := applyLoosely_is_ceil hp hrf hrp this
   exact ⟨a, r, h⟩
 
+/-- A ratio of at most 1 (`rf ≤ rp`, what `FeeRatio.Validate` enforces for same-denomination
+ratios) never charges more than the price. -/
+theorem applyLoosely_fee_le_price {p rp rf a : Int} {r : Bool} (hp : 0 ≤ p) (hrf : 0 ≤ rf)
+    (hrp : 0 < rp) (hle : rf ≤ rp) (h : applyLooselyTo p rp rf = .ok (a, r)) : 0 ≤ a ∧ a ≤ p := by
+  have hprod : 0 ≤ p * rf := Int.mul_nonneg hp hrf
+  have hc := ceilDiv_isCeil (p * rf) hrp
+  have hp' : IsCeilDiv (p * rp) rp p := by unfold IsCeilDiv; constructor <;> nlinarith
+  have hmono := isCeilDiv_mono hrp (by nlinarith : p * rf ≤ p * rp) hc hp'
+  have h0 := isCeilDiv_nonneg hrp hprod hc
+  by_cases hfit : fits256 (ceilDiv (p * rf) rp) = true
+  · obtain ⟨a', r', hok, hceil, _, _⟩ := applyLoosely_is_ceil hp hrf hrp hfit
+    rw [hok] at h; cases h
+    have := isCeilDiv_unique hrp hceil hc
+    omega
+  · have := (applyLoosely_fails_iff hp hrf hrp).mpr (by simpa using hfit)
+    obtain ⟨e, he⟩ := this; rw [h] at he; cases he
+
 /-- Before the repair (market.go, `price.Amount.Mul(r.Fee.Amount)`): the computation failed (Go:
 panicked) as soon as the PRODUCT needed more than 256 bits — price `2^255`, ratio `1 : 2` — although
 the fee (here `2^256 / 1`… no: here `2^255·2 = 2^256`, unrepresentable) or, for ratio `4 : 2`,
